@@ -16,7 +16,6 @@ import (
 	"io"
 	"math/rand"
 	"runtime"
-	"runtime/debug"
 	"strconv"
 	"strings"
 	"sync"
@@ -162,8 +161,30 @@ func fsFill(n int64, first byte, mode string, rng *rand.Rand) []byte {
 	return fsPool[off : off+int(n) : off+int(n)]
 }
 
-func copyMsg(m p2pcommon.Message) refMsg {
-	return refMsg{sub: m.Subprotocol(), ts: m.Timestamp(), id: m.ID(), org: m.OriginalID(), payload: append([]byte{}, m.Payload()...)}
+// fsArena: memory of the harness (connection buffer, the independent copies) reused from one replay to the next; fresh
+// multi-megabyte allocations for every replay cost more than the replay.  Nothing of it is ever handed to a reader.
+type fsArena struct {
+	buf []byte
+	off int
+}
+
+func (a *fsArena) take(n int) []byte {
+	if a.off+n > len(a.buf) {
+		return make([]byte, n)
+	}
+	b := a.buf[a.off : a.off+n : a.off+n]
+	a.off += n
+	return b
+}
+
+func (a *fsArena) copyOf(b []byte) []byte {
+	c := a.take(len(b))
+	copy(c, b)
+	return c
+}
+
+func copyMsg(a *fsArena, m p2pcommon.Message) refMsg {
+	return refMsg{sub: m.Subprotocol(), ts: m.Timestamp(), id: m.ID(), org: m.OriginalID(), payload: a.copyOf(m.Payload())}
 }
 
 // first difference between a kept message and a reference copy ("" when equal)
@@ -197,7 +218,8 @@ type fsViol struct {
 }
 
 // replayStream runs one behaviour on a fresh connection.
-func replayStream(b *fsBehaviour, f *fsFamily, chunker string, rng *rand.Rand) (v *fsViol, harnessErr error) {
+func replayStream(b *fsBehaviour, f *fsFamily, chunker string, rng *rand.Rand, ar *fsArena) (v *fsViol, harnessErr error) {
+	ar.off = 0
 	conn := &fsConn{limit: -1, mode: chunker, rng: rng}
 	wr := NewV030ReadWriter(bytes.NewReader(nil), conn, conn)
 	rd := NewV030ReadWriter(conn, io.Discard, conn)
@@ -219,7 +241,7 @@ func replayStream(b *fsBehaviour, f *fsFamily, chunker string, rng *rand.Rand) (
 			total += refHdr + f.lenOf(strings.Fields(s)[1])
 		}
 	}
-	conn.data = make([]byte, 0, total)
+	conn.data = ar.take(int(total))[:0]
 	var (
 		want     []refMsg            // what the writer was given (accepted messages), independent copies
 		kept     []p2pcommon.Message // what the consumer keeps
@@ -249,7 +271,7 @@ func replayStream(b *fsBehaviour, f *fsFamily, chunker string, rng *rand.Rand) (
 			if rng.Intn(2) == 0 {
 				m.org = randID(rng)
 			}
-			given := p2pcommon.NewMessageValue(m.sub, m.id, m.org, m.ts, append([]byte{}, m.payload...))
+			given := p2pcommon.NewMessageValue(m.sub, m.id, m.org, m.ts, ar.copyOf(m.payload)) // WriteMsg only reads it (checked below)
 			before := len(conn.data)
 			if step == lastOK && (ending == "cutHdr" || ending == "cutBody") {
 				cutStart, cutLen = before, L
@@ -357,7 +379,7 @@ func replayStream(b *fsBehaviour, f *fsFamily, chunker string, rng *rand.Rand) (
 						text: fmt.Sprintf("the %d. message returned is not the %d. message written (sub %d, %d payload bytes): %s", k+1, k+1, w.sub, len(w.payload), txt)}, nil
 				}
 				kept = append(kept, msg)
-				snap = append(snap, copyMsg(msg))
+				snap = append(snap, copyMsg(ar, msg))
 			} else {
 				if err == nil {
 					got := "nil"
@@ -423,13 +445,26 @@ func TestVerifFrameStream(t *testing.T) {
 		jobs := make(chan job, 256)
 		var wg sync.WaitGroup
 		workers := runtime.GOMAXPROCS(0)
-		if workers > 4 && scale == "true" { // up to 3 frames of 8 MiB per behaviour, several copies of each
+		if workers > 4 && scale == "true" { // several frames of 8 MiB per behaviour, several copies of each
 			workers = 4
+		}
+		maxW := 1
+		for i := range in.Behaviours {
+			n := 0
+			for _, st := range in.Behaviours[i].Steps {
+				if st[0] == 'W' {
+					n++
+				}
+			}
+			if n > maxW {
+				maxW = n
+			}
 		}
 		for w := 0; w < workers; w++ {
 			wg.Add(1)
 			go func() {
 				defer wg.Done()
+				ar := &fsArena{buf: make([]byte, (3*maxW+1)*(maxPayload()+refHdr)+(1<<16))} // the connection + 2 copies of every frame
 				for j := range jobs {
 					f := &in.Families[j.fi]
 					chunkers := []string{f.Chunker}
@@ -438,7 +473,7 @@ func TestVerifFrameStream(t *testing.T) {
 					}
 					for _, ch := range chunkers {
 						rng := verifkit.Rng(int64(j.bi)*1013 + f.Salt)
-						v, err := replayStream(j.b, f, ch, rng)
+						v, err := replayStream(j.b, f, ch, rng, ar)
 						if err != nil {
 							hmu.Lock()
 							herr = err
@@ -492,7 +527,6 @@ func TestVerifFrameStream(t *testing.T) {
 	}
 	trueMax := p2pcommon.MaxPayloadLength
 	defer func() { p2pcommon.MaxPayloadLength = trueMax }()
-	defer debug.SetGCPercent(debug.SetGCPercent(400)) // short-lived buffers only: collect less often
 	t0 := time.Now()
 	runPhase("true")
 	t1 := time.Now()
